@@ -652,9 +652,10 @@ Print Assumptions C14_ex_limited_slice.
      breaks RepInv without it (C14_node_*_refuted, C14_node_room_needed):
        room k r      last_index + k < u64::MAX when k entries may be appended (the model,
                      like the Rust, numbers new entries without an overflow check);
-       msg_wf li m   MsgAppend: entries numbered consecutively after m_index, non-zero
-                     terms, m_index + len < u64::MAX (a predicate of the message alone:
-                     maybe_append_ok's "anchor inside the log or term <> 0" is NOT needed);
+       msg_wf li m   MsgAppend: entries numbered consecutively after m_index and
+                     m_index + len < u64::MAX (a predicate of the message alone: the other
+                     two preconditions of maybe_append_ok - non-zero terms, anchor inside
+                     the log or of non-zero term - are NOT needed in Ok-form);
                      MsgSnapshot: index < u64::MAX; election-type messages and MsgPropose: room;
        commit_pre n  commit_ready (advance / advance_append / advance_append_async): the
                      snapshot / entries named by the last record are in the storage;
@@ -673,13 +674,14 @@ Print Assumptions C14_ex_limited_slice.
      otherwise (C14_node_trace_from_new, C14_node_trace_from_new_window).
    NOT PROVED
    * persist_pre is discharged from "the Ready was written as told" only when no earlier
-     record is outstanding (the synchronous cycle); for several outstanding records
-     (advance_append_async) it stays a hypothesis of the on_persist_ready / advance call.
+     record is outstanding (the synchronous cycle), and it is automatic while no
+     outstanding record carries a snapshot (C14_node_persist_pre_no_snapshot); with several
+     outstanding records one of which carries a snapshot (advance_append_async) it stays a
+     hypothesis of the on_persist_ready / advance call.
    * store_write covers exactly the current unstable entries / pending snapshot; a write
      of a proper prefix of the unstable entries (a Ready persisted after further appends)
-     is not covered.
-   * handle_append_entries: nz_terms of the message entries is required because the
-     component lemma maybe_append_ok requires it; it has not been shown necessary. *)
+     is not covered (commit_ready panics in that situation anyway: the record's last
+     entry is no longer the last unstable entry). *)
 From RV Require Import Base.IdSet M.Proto M.Inflights M.Progress M.Quorum M.ConfChange M.Msg M.Raft
   M.RawNode M.RaftProofs M.RaftProofsC15 M.RaftProofsC09 M.RaftProofsC08 M.RaftProofsC13
   M.RaftProofsC07 M.RaftProofsRepInv.
@@ -738,7 +740,6 @@ Theorem C14_node_append_wf_def :
   forall m,
   append_wf m <->
   contiguous_from (m_index m + 1) (m_entries m)
-  /\ Forall (fun e => e_term e <> 0) (m_entries m)
   /\ m_index m + N.of_nat (length (m_entries m)) < u64_max.
 Proof. exact append_wf_def. Qed.
 Print Assumptions C14_node_append_wf_def.
@@ -891,10 +892,20 @@ Theorem C14_node_log_append_pres :
 Proof. exact log_append_pres. Qed.
 Print Assumptions C14_node_log_append_pres.
 
+Theorem C14_node_find_conflict_shape :
+  forall L ents,
+  forall j,
+  contiguous_from j ents -> 0 < j ->
+  let ci := ll_find_conflict L ents in
+  ci = 0 \/ (ci <> 0 /\ j <= ci /\ ci < j + N.of_nat (length ents)
+             /\ exists e r, skipn (N.to_nat (ci - j)) ents = e :: r /\ e_index e = ci).
+Proof. exact find_conflict_shape. Qed.
+Print Assumptions C14_node_find_conflict_shape.
+
 Theorem C14_node_maybe_append_pres :
   forall rw l i t cmt ents l' res,
   maybe_append l i t cmt ents = Ok (l', res) -> RepInv rw l ->
-  contiguous_from (i + 1) ents -> nz_terms ents -> i + N.of_nat (length ents) < u64_max ->
+  contiguous_from (i + 1) ents -> i + N.of_nat (length ents) < u64_max ->
   RepInv rw l' /\ store l' = store l /\ applied l' = applied l.
 Proof. exact maybe_append_pres. Qed.
 Print Assumptions C14_node_maybe_append_pres.
@@ -1358,6 +1369,12 @@ Theorem C14_node_sync_cycle_records :
   rn_advance_append (set_store_node n1 st') rd = Ok (n3, lr) -> rn_records n3 = [].
 Proof. exact sync_cycle_records. Qed.
 Print Assumptions C14_node_sync_cycle_records.
+
+Theorem C14_node_persist_pre_no_snapshot :
+  forall n number,
+  (forall rr, In rr (rn_records n) -> rr_snapshot rr = None) -> persist_pre n number.
+Proof. exact persist_pre_no_snapshot. Qed.
+Print Assumptions C14_node_persist_pre_no_snapshot.
 
 (* traces *)
 Theorem C14_node_exec_pres :
